@@ -4,4 +4,5 @@ cd /verif
 mkdir -p .work/units
 python3 tools/extract.py verus/units/$1.unit .work/units/$1.rs .work/units/$1.meta.json || exit 2
 shift_args=""
+VO=$(grep -o "^@@# verify-only: .*" verus/units/$1.unit | sed "s/.*: //"); [ -n "$VO" ] && VERUS_EXTRA="$VERUS_EXTRA --verify-root --verify-function $VO"
 verus .work/units/$1.rs --multiple-errors 20 --triggers-mode silent $VERUS_EXTRA 2>&1 | grep -v '^\[rust_verify' | grep -v '^    [a-z_]*: ' | head -${LINES_MAX:-120}
